@@ -2123,7 +2123,7 @@ def main(run):
     # long jobs first
     weight = {"c06:unit_std": 3, "c06:unit_b2": 2, "c06:unit_ss": 2, "c06:unit_sp_pairs": 1}
     js.sort(key=lambda j: -weight.get(j["unit"], 0))
-    run.run_jobs(js, max_restarts=10)
+    run.run_jobs(js, max_restarts=12)
     return run.finish(
         rule="cases = (curve, P, Q, random projective representatives) for the pair/unary batteries (each case executes "
              "every function-table operation in every documented aliasing pattern), (curve, point, scalar, length) for "
